@@ -9,7 +9,7 @@ META = {
     "technique": "Lean 4 theorems on the Stringify model (as-coded trailing-comma patch = reference serializer for every tree; Escape output is RFC well-escaped; UnEscape∘Escape = id) + correspondence with Value::Stringify + round-trip / RFC oracle on the real code",
     "level": "proof",
     "design_ref": "DESIGN.md §6 C08",
-    "text": "Kernel-checked for every tree (any nesting, Undefined and pointer members anywhere, any number formatter): the serializer as coded — which writes a comma after every member and then patches the last unit of the stream — produces exactly the comma-separated reference text with Undefined members omitted (strValue_eq); for every string over all code units the escaped body contains no unit below 0x20, no bare quote or backslash and only RFC escapes (escapeJson_wellEscaped) and un-escaping it gives the string back. The full round trip additionally needs the number round trip (C11) and is checked on the real code on every run: generated trees built through the public API (removed members, pointer members, all code units, numeric extremes, -0) are stringified with 17 digits, parsed back and compared, stringify∘parse∘stringify is compared for a fixed point, and the text is given to an independent strict JSON reader when strings are well-formed Unicode.",
+    "text": "Kernel-checked: parse(stringify v) = v (pointers looked through, Undefined members dropped) for EVERY tree without real numbers, every width and precision, through the linked models of serializer, escaper, integer formatter, un-escaper, integer reader and parser (roundtrip_int_linked). Also for every tree (any nesting, Undefined and pointer members anywhere, any number formatter): the serializer as coded — which writes a comma after every member and then patches the last unit of the stream — produces exactly the comma-separated reference text with Undefined members omitted (strValue_eq); for every string over all code units the escaped body contains no unit below 0x20, no bare quote or backslash and only RFC escapes (escapeJson_wellEscaped) and un-escaping it gives the string back. The full round trip additionally needs the number round trip (C11) and is checked on the real code on every run: generated trees built through the public API (removed members, pointer members, all code units, numeric extremes, -0) are stringified with 17 digits, parsed back and compared, stringify∘parse∘stringify is compared for a fixed point, and the text is given to an independent strict JSON reader when strings are well-formed Unicode.",
     "note": "Trusted: Lean kernel; axioms ⊆ {propext, Quot.sound, Classical.choice}; correspondence harness; python's json module as independent RFC 8259 reader (validation). Top-level scalars print nothing by design of Value::Stringify and are outside the quantifier (container trees).",
 }
 
@@ -21,6 +21,9 @@ THEOREMS = [
     "Qentem.Props.C08.escape_well_escaped",
     "Qentem.Props.C08.stringify_omits_undefined",
     "Qentem.Props.C08.unescape_escape",
+    "Qentem.Props.C08.roundtrip_int_linked",
+    "Qentem.Json.numFmt_decimal",
+    "Qentem.Json.roundtrip_int",
 ]
 MODEL_STRINGIFY = False   # the driver's `jsstr` needs the number formatter model (C10 area)
 OPEN = ["Qentem.Props.C08.RoundTrip (parse (stringify v) = normalize v for reals) — depends on C11's RoundTrip17"]
